@@ -64,6 +64,10 @@ type BacktrackerState struct {
 	// When true, explores all branches to find the longest match instead of
 	// returning on the first match found.
 	Longest bool
+
+	// stack holds the pending branches of the depth-first exploration.
+	// It is kept here so that its memory is reused between searches.
+	stack []btFrame
 }
 
 // NewBoundedBacktracker creates a new bounded backtracker for the given NFA.
@@ -297,290 +301,159 @@ func (b *BoundedBacktracker) SearchAtWithState(haystack []byte, at int, state *B
 	return -1, -1, false
 }
 
-// backtrackWithState performs recursive backtracking search for IsMatch.
-// Returns true if a match is found from the given (pos, state).
+// btFrame is a pending branch of the depth-first exploration: the right-hand
+// side of a split that is tried once everything reachable through the left-hand
+// side has failed.
+type btFrame struct {
+	state StateID
+	pos   int
+}
+
+// backtrackWithState reports whether a match is reachable from (pos, nfaState).
 // This method uses external state for thread safety.
-//
-//nolint:gocyclo,cyclop // complexity is inherent to state machine dispatch
 func (b *BoundedBacktracker) backtrackWithState(haystack []byte, pos int, nfaState StateID, st *BacktrackerState) bool {
-	// Check bounds
-	if nfaState == InvalidState || int(nfaState) >= b.numStates {
-		return false
-	}
-
-	// Check and mark visited
-	if !b.shouldVisit(st, nfaState, pos) {
-		return false
-	}
-
-	s := b.nfa.State(nfaState)
-	if s == nil {
-		return false
-	}
-
-	switch s.Kind() {
-	case StateMatch:
-		return true
-
-	case StateByteRange:
-		lo, hi, next := s.ByteRange()
-		if pos < len(haystack) {
-			c := haystack[pos]
-			if c >= lo && c <= hi {
-				return b.backtrackWithState(haystack, pos+1, next, st)
-			}
-		}
-		return false
-
-	case StateSparse:
-		if pos >= len(haystack) {
-			return false
-		}
-		c := haystack[pos]
-		for _, tr := range s.Transitions() {
-			if c >= tr.Lo && c <= tr.Hi {
-				return b.backtrackWithState(haystack, pos+1, tr.Next, st)
-			}
-		}
-		return false
-
-	case StateSplit:
-		left, right := s.Split()
-		// Try left branch first (greedy), then right
-		return b.backtrackWithState(haystack, pos, left, st) || b.backtrackWithState(haystack, pos, right, st)
-
-	case StateEpsilon:
-		return b.backtrackWithState(haystack, pos, s.Epsilon(), st)
-
-	case StateCapture:
-		_, _, next := s.Capture()
-		return b.backtrackWithState(haystack, pos, next, st)
-
-	case StateLook:
-		look, next := s.Look()
-		if checkLookAssertion(look, haystack, pos) {
-			return b.backtrackWithState(haystack, pos, next, st)
-		}
-		return false
-
-	case StateRuneAny:
-		// Match any rune (including newline)
-		if pos < len(haystack) {
-			width := runeWidth(haystack[pos:])
-			if width > 0 {
-				return b.backtrackWithState(haystack, pos+width, s.RuneAny(), st)
-			}
-		}
-		return false
-
-	case StateRuneAnyNotNL:
-		// Match any rune except newline
-		if pos < len(haystack) && haystack[pos] != '\n' {
-			width := runeWidth(haystack[pos:])
-			if width > 0 {
-				return b.backtrackWithState(haystack, pos+width, s.RuneAnyNotNL(), st)
-			}
-		}
-		return false
-
-	case StateFail:
-		return false
-	}
-
-	return false
+	return b.explore(haystack, pos, nfaState, st, false) >= 0
 }
 
-// backtrackFindWithState performs recursive backtracking to find match end position.
-// Returns end position if match found, -1 otherwise.
+// backtrackFindWithState returns the end of the first match (in priority order)
+// reachable from (pos, nfaState), or -1.
 // This method uses external state for thread safety.
-//
-//nolint:gocyclo,cyclop // complexity is inherent to state machine dispatch
 func (b *BoundedBacktracker) backtrackFindWithState(haystack []byte, pos int, nfaState StateID, st *BacktrackerState) int {
-	// Check bounds
-	if nfaState == InvalidState || int(nfaState) >= b.numStates {
-		return -1
-	}
-
-	// Check and mark visited
-	if !b.shouldVisit(st, nfaState, pos) {
-		return -1
-	}
-
-	s := b.nfa.State(nfaState)
-	if s == nil {
-		return -1
-	}
-
-	switch s.Kind() {
-	case StateMatch:
-		return pos
-
-	case StateByteRange:
-		lo, hi, next := s.ByteRange()
-		if pos < len(haystack) {
-			c := haystack[pos]
-			if c >= lo && c <= hi {
-				return b.backtrackFindWithState(haystack, pos+1, next, st)
-			}
-		}
-		return -1
-
-	case StateSparse:
-		if pos >= len(haystack) {
-			return -1
-		}
-		c := haystack[pos]
-		for _, tr := range s.Transitions() {
-			if c >= tr.Lo && c <= tr.Hi {
-				return b.backtrackFindWithState(haystack, pos+1, tr.Next, st)
-			}
-		}
-		return -1
-
-	case StateSplit:
-		left, right := s.Split()
-		// Try left first, then right
-		if end := b.backtrackFindWithState(haystack, pos, left, st); end >= 0 {
-			return end
-		}
-		return b.backtrackFindWithState(haystack, pos, right, st)
-
-	case StateEpsilon:
-		return b.backtrackFindWithState(haystack, pos, s.Epsilon(), st)
-
-	case StateCapture:
-		_, _, next := s.Capture()
-		return b.backtrackFindWithState(haystack, pos, next, st)
-
-	case StateLook:
-		look, next := s.Look()
-		if checkLookAssertion(look, haystack, pos) {
-			return b.backtrackFindWithState(haystack, pos, next, st)
-		}
-		return -1
-
-	case StateRuneAny:
-		if pos < len(haystack) {
-			width := runeWidth(haystack[pos:])
-			if width > 0 {
-				return b.backtrackFindWithState(haystack, pos+width, s.RuneAny(), st)
-			}
-		}
-		return -1
-
-	case StateRuneAnyNotNL:
-		if pos < len(haystack) && haystack[pos] != '\n' {
-			width := runeWidth(haystack[pos:])
-			if width > 0 {
-				return b.backtrackFindWithState(haystack, pos+width, s.RuneAnyNotNL(), st)
-			}
-		}
-		return -1
-
-	case StateFail:
-		return -1
-	}
-
-	return -1
+	return b.explore(haystack, pos, nfaState, st, false)
 }
 
-// backtrackFindLongestWithState performs backtracking to find the longest match end position.
-// Unlike backtrackFindWithState, this explores ALL branches at splits to find the longest match.
-// Returns end position if match found, -1 otherwise.
+// backtrackFindLongestWithState returns the end of the longest match reachable
+// from (pos, nfaState), or -1. Unlike backtrackFindWithState it explores all
+// branches.
 // This method uses external state for thread safety.
-//
-//nolint:gocyclo,cyclop // complexity is inherent to state machine dispatch
 func (b *BoundedBacktracker) backtrackFindLongestWithState(haystack []byte, pos int, nfaState StateID, st *BacktrackerState) int {
-	// Check bounds
-	if nfaState == InvalidState || int(nfaState) >= b.numStates {
-		return -1
-	}
+	return b.explore(haystack, pos, nfaState, st, true)
+}
 
-	// Check and mark visited
-	if !b.shouldVisit(st, nfaState, pos) {
-		return -1
-	}
+// explore is the depth-first search shared by the three entry points above.
+// It keeps the pending right-hand branches on an explicit stack that lives in
+// the pooled state: a recursive formulation needs one goroutine stack frame per
+// step of the deepest path, which is proportional to the input length, and the
+// runtime aborts the whole process when a goroutine stack passes its limit
+// (^(\w+\s*)+$ on a 2 MB line).
+//
+// With longest == false it returns the end of the first match in priority order
+// (left before right at every split); with longest == true it visits everything
+// and returns the largest match end. Returns -1 if no match is reachable.
+//
+//nolint:gocyclo,cyclop,gocognit // complexity is inherent to state machine dispatch
+func (b *BoundedBacktracker) explore(haystack []byte, pos int, nfaState StateID, st *BacktrackerState, longest bool) int {
+	stack := append(st.stack[:0], btFrame{nfaState, pos})
+	best := -1
 
-	s := b.nfa.State(nfaState)
-	if s == nil {
-		return -1
-	}
+	for len(stack) > 0 {
+		top := stack[len(stack)-1]
+		stack = stack[:len(stack)-1]
+		sid, at := top.state, top.pos
 
-	switch s.Kind() {
-	case StateMatch:
-		return pos
+	follow:
+		for {
+			// Check bounds
+			if sid == InvalidState || int(sid) >= b.numStates {
+				break
+			}
+			// Check and mark visited
+			if !b.shouldVisit(st, sid, at) {
+				break
+			}
+			s := b.nfa.State(sid)
+			if s == nil {
+				break
+			}
 
-	case StateByteRange:
-		lo, hi, next := s.ByteRange()
-		if pos < len(haystack) {
-			c := haystack[pos]
-			if c >= lo && c <= hi {
-				return b.backtrackFindLongestWithState(haystack, pos+1, next, st)
+			switch s.Kind() {
+			case StateMatch:
+				if !longest {
+					st.stack = stack[:0]
+					return at
+				}
+				if at > best {
+					best = at
+				}
+				break follow
+
+			case StateByteRange:
+				lo, hi, next := s.ByteRange()
+				if at >= len(haystack) {
+					break follow
+				}
+				if c := haystack[at]; c < lo || c > hi {
+					break follow
+				}
+				sid, at = next, at+1
+
+			case StateSparse:
+				if at >= len(haystack) {
+					break follow
+				}
+				c := haystack[at]
+				next := InvalidState
+				for _, tr := range s.Transitions() {
+					if c >= tr.Lo && c <= tr.Hi {
+						next = tr.Next
+						break
+					}
+				}
+				if next == InvalidState {
+					break follow
+				}
+				sid, at = next, at+1
+
+			case StateSplit:
+				// Left branch first (greedy); the right one waits on the stack
+				left, right := s.Split()
+				stack = append(stack, btFrame{right, at})
+				sid = left
+
+			case StateEpsilon:
+				sid = s.Epsilon()
+
+			case StateCapture:
+				_, _, next := s.Capture()
+				sid = next
+
+			case StateLook:
+				look, next := s.Look()
+				if !checkLookAssertion(look, haystack, at) {
+					break follow
+				}
+				sid = next
+
+			case StateRuneAny:
+				// Match any rune (including newline)
+				if at >= len(haystack) {
+					break follow
+				}
+				width := runeWidth(haystack[at:])
+				if width <= 0 {
+					break follow
+				}
+				sid, at = s.RuneAny(), at+width
+
+			case StateRuneAnyNotNL:
+				// Match any rune except newline
+				if at >= len(haystack) || haystack[at] == '\n' {
+					break follow
+				}
+				width := runeWidth(haystack[at:])
+				if width <= 0 {
+					break follow
+				}
+				sid, at = s.RuneAnyNotNL(), at+width
+
+			default: // StateFail and unknown kinds
+				break follow
 			}
 		}
-		return -1
-
-	case StateSparse:
-		if pos >= len(haystack) {
-			return -1
-		}
-		c := haystack[pos]
-		for _, tr := range s.Transitions() {
-			if c >= tr.Lo && c <= tr.Hi {
-				return b.backtrackFindLongestWithState(haystack, pos+1, tr.Next, st)
-			}
-		}
-		return -1
-
-	case StateSplit:
-		left, right := s.Split()
-		// For longest match: try BOTH branches and return the longer one
-		leftEnd := b.backtrackFindLongestWithState(haystack, pos, left, st)
-		rightEnd := b.backtrackFindLongestWithState(haystack, pos, right, st)
-
-		// Return the longer match (or the one that matched if only one did)
-		if leftEnd >= rightEnd {
-			return leftEnd
-		}
-		return rightEnd
-
-	case StateEpsilon:
-		return b.backtrackFindLongestWithState(haystack, pos, s.Epsilon(), st)
-
-	case StateCapture:
-		_, _, next := s.Capture()
-		return b.backtrackFindLongestWithState(haystack, pos, next, st)
-
-	case StateLook:
-		look, next := s.Look()
-		if checkLookAssertion(look, haystack, pos) {
-			return b.backtrackFindLongestWithState(haystack, pos, next, st)
-		}
-		return -1
-
-	case StateRuneAny:
-		if pos < len(haystack) {
-			width := runeWidth(haystack[pos:])
-			if width > 0 {
-				return b.backtrackFindLongestWithState(haystack, pos+width, s.RuneAny(), st)
-			}
-		}
-		return -1
-
-	case StateRuneAnyNotNL:
-		if pos < len(haystack) && haystack[pos] != '\n' {
-			width := runeWidth(haystack[pos:])
-			if width > 0 {
-				return b.backtrackFindLongestWithState(haystack, pos+width, s.RuneAnyNotNL(), st)
-			}
-		}
-		return -1
-
-	case StateFail:
-		return -1
 	}
 
-	return -1
+	st.stack = stack[:0]
+	return best
 }
 
 // runeWidth returns the width in bytes of the first UTF-8 rune in b.
